@@ -20,7 +20,8 @@ Overlay syntax (lines starting with `//@`):
        //@ after <k>           text placed immediately after loop k
        //@ exit                text placed after the body (body wrapped as `let r__ = { body }; <text> r__`)
        //@ closure <k>         replacement header for closure k (`|x: &T| -> (b: bool) ensures ..`); body gets `{ }`
-       //@ subst <reason>      exact-text substitution `<<<` old `===` new `>>>` (anchor must occur exactly once)
+       //@ subst <reason>      exact-text substitution `<<<` old `===` new `>>>` (anchor must occur exactly once; `all:` = every occurrence,
+                               `opt:` = skipped when the text is not there)
        //@ first / last / params / tail    (block only)
   //@ end
   anything else is copied verbatim (prelude, spec functions, lemmas, impl headers ...).
@@ -1418,6 +1419,10 @@ def _apply_substs(text, ed, secs, log, where):
                 if a < 0: break
                 ed.replace(a, a + len(old), new); pos_ = a + len(old)
             log.append(("S", where, f"{x.arg}: {old[:80]!r} -> {new[:80]!r} ({text.count(old)}x)"))
+            continue
+        if (x.arg or "").startswith("opt:") and text.count(old) == 0:
+            # an expression-level rewrite whose expression is no longer there: nothing to rewrite, the code is checked as it stands
+            log.append(("skip", where, f"optional subst: {old[:60]!r} not present"))
             continue
         if text.count(old) != 1:
             raise ExtractError(f"lost-anchor: {where}: subst anchor occurs {text.count(old)}x: {old[:60]!r}")
